@@ -59,11 +59,15 @@ def check(rep, tier):
     import c07
     wc1, wl1, wc2, wl2 = [], [], [], []
     prog = dict(start=20, end=-50, rate=2 / 60, holds=[], t_tot=9000.0, dt=1.0)
-    for dim in (["spatial_1D"] if tier == "quick" else ["spatial_1D", "spatial_2D"]):
+    KINDS = ((5.0, 0.1, "after-the-process"), (0.2, 0.1, "inside"), (0.1, 0.05, "closes-before-nucleation"), (0.6, 0.1, "opens-after-nucleation"))
+    for dim in ["spatial_1D", "spatial_2D"]:
         geo = dict(height=0.05, diameter=0.05 if dim == "spatial_1D" else 0.1, K=300)
         try:
+            prog = dict(prog)
+            dt0, _ = sr.step_info(sr.make(dim=dim, conf="shelf", prog=prog, **geo))
+            prog["t_tot"] = min(9000.0, float(int(dt0 * 9800)))        # every step saved
             Sshelf = sr.make(dim=dim, conf="shelf", prog=prog, **geo); sr.run(Sshelf)
-            for ts, td, kind in ((5.0, 0.1, "after-the-process"), (0.2, 0.1, "inside"), (0.1, 0.05, "closes-before-nucleation")):
+            for ts, td, kind in (KINDS if dim == "spatial_1D" or tier != "quick" else KINDS[3:]):
                 Sv = sr.make(dim=dim, conf="VISF", prog=prog, extra={"VISF": {"t_vac_start": ts, "t_vac_duration": td, "kappa": 0.01}}, **geo); sr.run(Sv)
                 rep.case(("window", dim, kind), True)
                 if kind != "after-the-process":
@@ -91,6 +95,17 @@ def check(rep, tier):
                         top_v = Tb[k[-1]].reshape(Tb.shape[1], -1)[-1].mean(); top_s = Ta[k[-1]].reshape(Ta.shape[1], -1)[-1].mean()
                         if not top_v < top_s - 1e-6:
                             rep.violation("window-no-cooling", "%s: inside the vacuum window the top surface is not colder than in the shelf run (%r vs %r)" % (dim, top_v, top_s), dict(dim=dim))
+            if dim == "spatial_1D" or tier != "quick":
+                # history: an object that has already run with one vacuum window is re-pointed to a configuration file with another window
+                # and evaporation coefficient; its next run is the run of a fresh object with that file
+                exA = {"VISF": {"t_vac_start": 0.2, "t_vac_duration": 0.1, "kappa": 0.01}}; exB = {"VISF": {"t_vac_start": 0.6, "t_vac_duration": 0.1, "kappa": 0.03}}
+                Sh = sr.make(dim=dim, conf="VISF", prog=prog, extra=exA, **geo); sr.run(Sh)
+                Sh.configPath = impl.cfg_path(sr.make_over(dim, "VISF", geo["height"], geo["diameter"], exB)); sr.run(Sh)
+                Sf = sr.make(dim=dim, conf="VISF", prog=prog, extra=exB, **geo); sr.run(Sf)
+                rep.case(("window", dim, "re-pointed"), True)
+                if np.asarray(Sh.temp).shape != np.asarray(Sf.temp).shape or not np.array_equal(np.asarray(Sh.temp), np.asarray(Sf.temp)) or not Sh.results.equals(Sf.results):
+                    rep.violation("window-stale-after-repoint", "%s: after run, configPath re-pointed to a file with vacuum window 0.6 h + 0.1 h / kappa 0.03, run: the result differs from a fresh object's "
+                                  "(t_nuc %r vs %r min)" % (dim, float(Sh.results["t_nuc"].iloc[0]), float(Sf.results["t_nuc"].iloc[0])), dict(dim=dim, history="run; configPath = other window; run"))
         except Exception as e:
             rep.violation("window-run-crash %s" % type(e).__name__, "%s VISF/shelf comparison raises %r" % (dim, e), dict(dim=dim))
     # the step models the window theorems speak about, tied to the runs with the window inside the process
